@@ -1160,6 +1160,125 @@ example : ((matrix3Mul true ⟨[], .all true⟩ ⟨[2], .all false⟩).map fun r
     = some ([2], [true, true]) := by decide
 example : ((matrix3Mul true ⟨[3], .all false⟩ ⟨[], .all false⟩).map fun r => r.1) = some [3] := by decide
 
+/-! ### in-place operators: the target's new mask equals the mask of the direct form -/
+
+theorem mergeMask_at (a : Opd) (m r : Mask) (h : mergeMask a m = some r) (i : Index) :
+    r.atB i = (a.mask.atB i || m.atB i) ∧ (a.mask.Fits a.shape → r.Fits a.shape) := by
+  simp only [mergeMask, Option.bind_eq_some_iff] at h
+  obtain ⟨o, ho, h⟩ := h
+  have e := or_at false _ _ _ (by simp) ho i
+  cases o with
+  | all b => simp only [Option.some.injEq] at h; subst h; exact ⟨e, fun _ => trivial⟩
+  | arr x =>
+    simp only at h
+    by_cases hs : x.shape = a.shape
+    · simp only [hs, if_true, Option.some.injEq] at h; subst h; exact ⟨e, fun _ => hs⟩
+    · simp only [hs, if_false] at h
+      by_cases hb : bcast x.shape a.shape = some a.shape
+      · simp only [hb, if_true, Option.some.injEq] at h
+        subst h
+        refine ⟨?_, fun _ => rfl⟩
+        rw [← e]
+        simp only [Mask.atB, Arr.bto, bidx_bidx_into _ _ hb]
+      · simp [hb] at h
+
+theorem into_iff (a b : Opd) : into a b = true ↔ bcast a.shape b.shape = some a.shape := by
+  simp [into]
+
+/-- every in-place form: the target keeps its shape, the operand broadcasts into it, and the new
+    mask is the union of the target's old mask, the operand's mask and the failure set — exactly
+    what `mask_exact` says of the corresponding direct form -/
+theorem inplace_exact (k : InPlace) (a b : Opd) (fail : Mask) (s : Shape) (m : Mask)
+    (ha : a.mask.Fits a.shape) (hb : b.mask.Fits b.shape) (hf : fail.Fits b.shape)
+    (h : runInPlace k a b fail = some (s, m)) :
+    s = a.shape ∧ (k ≠ .number → bcast a.shape b.shape = some a.shape) ∧
+    ∀ i, Valid s i → m.atB i =
+      (a.mask.atB i || (match k with | .number => false | _ => b.mask.atB i) ||
+       (match k with | .divMerge | .pipeMerge | .matdiv => fail.atB i | _ => false)) := by
+  cases k with
+  | number =>
+    simp only [runInPlace, Option.some.injEq, Prod.mk.injEq] at h
+    obtain ⟨rfl, rfl⟩ := h
+    exact ⟨rfl, fun c => absurd rfl c, fun i _ => by simp⟩
+  | merge =>
+    simp only [runInPlace] at h
+    by_cases hi : into a b = true
+    · simp only [hi, if_true, Option.map_eq_some_iff, Prod.mk.injEq] at h
+      obtain ⟨r, hr, rfl, rfl⟩ := h
+      exact ⟨rfl, fun _ => (into_iff a b).1 hi, fun i _ => by simp [(mergeMask_at a _ _ hr i).1]⟩
+    · simp [hi] at h
+  | divMerge =>
+    simp only [runInPlace, Option.bind_eq_some_iff] at h
+    obtain ⟨⟨sb, bm⟩, hg, h⟩ := h
+    obtain ⟨rfl, _, eg⟩ := mask_exact_guard b fail sb bm hb hg
+    by_cases hi : into a b = true
+    · simp only [hi, if_true, Option.map_eq_some_iff, Prod.mk.injEq] at h
+      obtain ⟨r, hr, rfl, rfl⟩ := h
+      have hbc := (into_iff a b).1 hi
+      refine ⟨rfl, fun _ => hbc, fun i hv => ?_⟩
+      have vbb : VB b.shape i := vb_of_valid (bcast_absorb _ _ _ hbc).2 hv
+      have fbm : bm.Fits b.shape := (mask_exact_guard b fail b.shape bm hb hg).2.1
+      rw [(mergeMask_at a _ _ hr i).1, ← atB_proj fbm, eg _ vbb, atB_proj hb, atB_proj hf]
+      simp [Bool.or_assoc]
+    · simp [hi] at h
+  | pipeMerge =>
+    simp only [runInPlace, Option.bind_eq_some_iff] at h
+    obtain ⟨bm, hbm, h⟩ := h
+    by_cases hi : into a b = true
+    · simp only [hi, if_true, Option.map_eq_some_iff, Prod.mk.injEq] at h
+      obtain ⟨r, hr, rfl, rfl⟩ := h
+      have hbc := (into_iff a b).1 hi
+      refine ⟨rfl, fun _ => hbc, fun i hv => ?_⟩
+      have vbb : VB b.shape i := vb_of_valid (bcast_absorb _ _ _ hbc).2 hv
+      rw [(mergeMask_at a _ _ hr i).1, (maskWhere_at _ _ _ _ hb hbm i vbb).1]
+      simp [Bool.or_assoc]
+    · simp [hi] at h
+  | matmul =>
+    simp only [runInPlace, Option.bind_eq_some_iff] at h
+    obtain ⟨⟨s', m'⟩, hr, h⟩ := h
+    by_cases hs : s' = a.shape
+    · subst hs
+      simp only [if_true, Option.some.injEq, Prod.mk.injEq] at h
+      obtain ⟨rfl, rfl⟩ := h
+      obtain ⟨hbc, _, e⟩ := mask_exact_ctorOr a b (.all false) _ m' false (by simp) hr
+      exact ⟨rfl, fun _ => hbc, fun i hv => by simp [e i hv]⟩
+    · simp [hs] at h
+  | matdiv =>
+    simp only [runInPlace, Option.bind_eq_some_iff] at h
+    obtain ⟨⟨sb, bm⟩, hinv, ⟨s', m'⟩, hr, h⟩ := h
+    obtain ⟨rfl, fbm, ei⟩ := mask_exact_matInverse b fail sb bm hf hinv
+    by_cases hs : s' = a.shape
+    · subst hs
+      simp only [if_true, Option.some.injEq, Prod.mk.injEq] at h
+      obtain ⟨rfl, rfl⟩ := h
+      obtain ⟨hbc, _, e⟩ := mask_exact_ctorOr a ⟨b.shape, bm⟩ (.all false) _ m' false (by simp) hr
+      refine ⟨rfl, fun _ => hbc, fun i hv => ?_⟩
+      have hbc' : bcast a.shape b.shape = some a.shape := hbc
+      have vbb : VB b.shape i := vb_of_valid (bcast_absorb _ _ _ hbc').2 hv
+      rw [e i hv]
+      simp only
+      rw [← atB_proj fbm, ei _ vbb, atB_proj hb, atB_proj hf]
+      simp [Bool.or_assoc]
+    · simp [hs] at h
+
+/-- `a *= b` leaves exactly the mask `a * b` has (same for `+= -=`), whenever both are accepted -/
+theorem inplace_merge_eq_direct (a b : Opd) (s s' : Shape) (m m' : Mask) (same : Bool)
+    (hs : same = true → a.mask = b.mask)
+    (ha : a.mask.Fits a.shape) (hb : b.mask.Fits b.shape)
+    (h : runInPlace .merge a b (.all false) = some (s, m))
+    (h' : run (.ctorOr same) [a, b] (.all false) = some (s', m')) :
+    s = s' ∧ ∀ i, Valid s i → m.atB i = m'.atB i := by
+  obtain ⟨rfl, hbc, e⟩ := inplace_exact .merge a b (.all false) s m ha hb trivial h
+  obtain ⟨hbc', _, e'⟩ := mask_exact_ctorOr a b (.all false) s' m' same hs h'
+  have : some a.shape = some s' := by rw [← hbc (by simp), hbc']
+  cases this
+  exact ⟨rfl, fun i hv => by rw [e i hv, e' i hv]; simp⟩
+
+/-- the seeded mutant C01x-a as a non-example: committing the matrix product WITHOUT its mask
+    (keeping the target's old mask) is not what the model does -/
+example : ((runInPlace .matmul ⟨[2], .all false⟩ ⟨[2], .arr ⟨[2], fun i => i == [1]⟩⟩ (.all false)).map
+    fun r => (indices r.1).map r.2.atB) = some [false, true] := by decide
+
 /-! ### non-vacuity: concrete instances -/
 
 /-- a (2,3) operand with scalar False mask plus a (3,) operand with an array mask: the constructor
